@@ -2776,12 +2776,14 @@ fin:
 bool
 echs_instant_matches_p(rrulsp_t filt, echs_instant_t inst)
 {
-	/* whitelisted events and state */
-	static echs_instant_t wl[256U];
+	/* whitelisted events and state, the fillers put a group stamp
+	 * GRP_CCH_OFF slots behind every instant they write */
+	static echs_instant_t wl[256U + GRP_CCH_OFF];
 	static size_t nwl;
 	static size_t iwl;
+	const size_t zwl = countof(wl) - GRP_CCH_OFF;
 
-	if (UNLIKELY(nwl > countof(wl))) {
+	if (UNLIKELY(nwl > zwl)) {
 		goto never;
 	}
 ffw:
@@ -2792,10 +2794,10 @@ ffw:
 		echs_instant_t proto = inst;
 
 		proto.d = 0;
-		for (size_t i = 0UL; i < countof(wl); i++) {
+		for (size_t i = 0UL; i < zwl; i++) {
 			wl[i] = proto;
 		}
-		if (UNLIKELY(!(nwl = rrul_fill_yly(wl, countof(wl), filt)))) {
+		if (UNLIKELY(!(nwl = rrul_fill_yly(wl, zwl, filt)))) {
 			nwl = -1UL;
 			goto never;
 		}
